@@ -108,7 +108,7 @@ func (p *rawPeer) reader() {
 				}
 			}
 			if hit == nil {
-				r.fail("oracle:unsolicited-response", "A answered id "+id+" which the peer never used", "response written for an id that never arrived")
+				r.note("response written for an id that never arrived")
 				continue
 			}
 			hit.answers++
